@@ -58,6 +58,16 @@ OPS = [
     ('1->2', r'\(([a-z_.]+), 1\)', r'(\1, 2)'),
     ('clone-swap T/U', r'\(T, U\)', '(U, T)'), ('swap &T,&U', r'&T, &U', '&U, &T'),
     ('Some->None', r'\bSome\(K2\)', 'None'),
+    ('if->true', r'^(\s*(?:\} else )?if )(?!let )(.+)( \{)$', r'\1true\3'),
+    ('if->false', r'^(\s*(?:\} else )?if )(?!let )(.+)( \{)$', r'\1false\3'),
+    ('.0->.1', r'\.0\b(?!\.)', '.1'), ('.1->.0', r'\.1\b(?!\.)', '.0'),
+    ('swap-args', r'\((&?\*?\*?[A-Za-z_][\w.]*), (&?\*?\*?[A-Za-z_][\w.]*)\)', r'(\2, \1)'),
+    ('0..->1..', r'\b0\.\.(?=[a-zA-Z_(])', '1..'),
+    ('Some->None ret', r'Ok\(Some\([^()]*\)\)', 'Ok(None)'),
+    ('1u8->2u8', r'\b1u8\b', '2u8'), ('0u8->1u8', r'\b0u8\b', '1u8'),
+    ('T->U', r'&\*?\*?T\b', '&U'), ('U->T', r'&\*?\*?U\b', '&T'),
+    ('take+1', r'\.take\(([^()]+)\)', r'.take(\1 + 1)'),
+    ('+=->=', r' \+= ', ' = '),
     ('?->ok', r'^(\s*(?!let |n \+= |return )[^=]*\))\?;$', r'\1.ok();'),
 ]
 DELETE_STMT = re.compile(r'^\s*(?!let |return|if |for |while |match |else|\}|//|#|use |pub |fn |impl |mod |type |const |static |struct |enum )'
@@ -75,6 +85,19 @@ def code_lines(path):
     skip_until = -1
     while i < n:
         s = lines[i].strip()
+        if s.startswith('#[test]'):
+            depth = 0
+            started = False
+            k = i + 1
+            while k < n:
+                depth += lines[k].count('{') - lines[k].count('}')
+                if '{' in lines[k]:
+                    started = True
+                if started and depth <= 0:
+                    break
+                k += 1
+            i = k + 1
+            continue
         if s.startswith('#[cfg(test)]'):
             j = i + 1
             while j < n and not lines[j].strip():
@@ -124,8 +147,20 @@ def gen():
                     cands.append({'file': rel, 'line': i + 1, 'op': name, 'before': text, 'after': new + text[len(body):]})
             if DELETE_STMT.match(body) and not re.search(r'\b(Ok|Err|Some|None)\(', body.strip()[:6]):
                 cands.append({'file': rel, 'line': i + 1, 'op': 'delete-stmt', 'before': text, 'after': ''})
-    for k, c in enumerate(cands):
-        c['id'] = 'S%04d' % k
+    prev = {}
+    mp = os.path.join(OUT, 'mutants.jsonl')
+    if os.path.exists(mp):
+        for l in open(mp):
+            d = json.loads(l)
+            prev[(d['file'], d['line'], d['op'], d['after'])] = d['id']
+    nxt = max([int(v[1:]) for v in prev.values()] + [-1]) + 1
+    for c in cands:
+        k = (c['file'], c['line'], c['op'], c['after'])
+        if k in prev:
+            c['id'] = prev[k]
+        else:
+            c['id'] = 'S%04d' % nxt
+            nxt += 1
     with open(os.path.join(OUT, 'mutants.jsonl'), 'w') as f:
         for c in cands:
             f.write(json.dumps(c) + '\n')
